@@ -33,7 +33,9 @@ class FnView(object):
     """Call sites resolving to `fq` (or whose attribute/name is `tail`)."""
     is_cls = fq is not None and _is_class(self.repo, fq)
     if fq is not None and not is_cls:
-      self.repo.func(fq)       # AnalysisError when the callee itself vanished
+      # AnalysisError when the callee itself vanished; its present name
+      # otherwise (a nested function may have moved to module level)
+      fq = self.repo.func(fq).fq
     out = []
     for n, c in self.all_calls():
       if tail is not None and call_tail(c) != tail:
@@ -44,6 +46,28 @@ class FnView(object):
         if fq not in self.repo.resolve(self.fi, c):
           continue
       out.append((n, c))
+    return out
+
+  def calls_reaching(self, fq, depth=3):
+    """Call sites of this function that call `fq` directly or through helper
+    functions (at most `depth` calls deep, never back through this function):
+    extracting the statements around a call into a helper does not remove the
+    call from the caller's paths."""
+    fq = self.repo.func(fq).fq
+    cg = _callgraph(self.repo)
+
+    def reaches(t, d, seen):
+      if t == fq:
+        return True
+      if d == 0 or t == self.fi.fq or t in seen:
+        return False
+      seen = seen | {t}
+      return any(reaches(u, d - 1, seen) for u in cg.edges.get(t, ()))
+    out = []
+    for n, c in self.all_calls():
+      tg = self.repo.resolve(self.fi, c)
+      if fq in tg or any(reaches(t, depth - 1, frozenset()) for t in tg if t != self.fi.fq):
+        out.append((n, c))
     return out
 
   def need_calls(self, fq=None, tail=None, least=1):
@@ -115,6 +139,79 @@ class FnView(object):
           out.append(x.value)
     return out
 
+  def single_defs(self):
+    """{name: value} for locals with exactly one plain assignment in the
+    function (not a parameter, not augmented, not a loop / with / tuple
+    target): a reference to such a name can be read as its definition."""
+    if getattr(self, '_single', None) is None:
+      count, val = {}, {}
+      bad = set(self.fi.params)
+      for x in walk_local(self.fi.node):
+        if isinstance(x, ast.Assign):
+          for t in x.targets:
+            if isinstance(t, ast.Name):
+              count[t.id] = count.get(t.id, 0) + 1
+              val[t.id] = x.value
+            else:
+              for e in ast.walk(t):
+                if isinstance(e, ast.Name):
+                  bad.add(e.id)
+        elif isinstance(x, (ast.AugAssign, ast.AnnAssign)):
+          for e in ast.walk(x.target):
+            if isinstance(e, ast.Name):
+              bad.add(e.id)
+        elif isinstance(x, (ast.For, ast.comprehension)):
+          for e in ast.walk(x.target):
+            if isinstance(e, ast.Name):
+              bad.add(e.id)
+        elif isinstance(x, ast.With):
+          for it in x.items:
+            if it.optional_vars is not None:
+              for e in ast.walk(it.optional_vars):
+                if isinstance(e, ast.Name):
+                  bad.add(e.id)
+        elif isinstance(x, ast.NamedExpr):
+          bad.add(x.target.id)
+        elif isinstance(x, (ast.Global, ast.Nonlocal)):
+          bad.update(x.names)
+      self._single = {k: v for k, v in val.items() if count[k] == 1 and k not in bad}
+    return self._single
+
+  def expand(self, expr, depth=3, stop=()):
+    """`expr` with every single-definition local replaced by its definition
+    (hoisting a sub-expression into a local does not change what is computed)."""
+    import copy
+    defs = self.single_defs()
+
+    class Sub(ast.NodeTransformer):
+      def __init__(self, d):
+        self.d = d
+
+      def visit_Name(self, node):
+        if isinstance(node.ctx, ast.Load) and node.id in defs and self.d > 0 and node.id not in stop:
+          return Sub(self.d - 1).visit(copy.deepcopy(defs[node.id]))
+        return node
+    return Sub(depth).visit(copy.deepcopy(expr))
+
+  def deep_text(self, expr, depth=2):
+    """source text of `expr` followed by the text of what the helper functions
+    it calls return (a literal built by a helper is still that literal)."""
+    out = [norm(expr, 100000)]
+    if depth:
+      for c in ast.walk(expr):
+        if isinstance(c, ast.Call):
+          for t in self.repo.resolve(self.fi, c):
+            try:
+              h = FnView(self.repo, t)
+            except AnalysisError:
+              continue
+            if h.fi is self.fi:
+              continue
+            for _, r in h.returns():
+              if r.value is not None:
+                out.append(h.deep_text(r.value, depth - 1))
+    return ' '.join(out)
+
   def returns(self):
     return [(n, self.cfg.stmt[n]) for n in self.cfg.stmt_nodes()
             if isinstance(self.cfg.stmt[n], ast.Return)]
@@ -122,6 +219,13 @@ class FnView(object):
   def raises(self):
     return [(n, self.cfg.stmt[n]) for n in self.cfg.stmt_nodes()
             if isinstance(self.cfg.stmt[n], ast.Raise)]
+
+
+def _callgraph(repo):
+  if getattr(repo, '_cg', None) is None:
+    from .callgraph import CallGraph
+    repo._cg = CallGraph(repo)
+  return repo._cg
 
 
 def _is_class(repo, fq):
